@@ -281,3 +281,96 @@ pub fn random_net(rng: &mut Rng, o: &NetOpts) -> NetCfg {
 pub fn random_input(rng: &mut Rng, sh: Sh) -> Vec<f32> {
     rng.distinct_f32(sh.count(), -1.5, 1.5)
 }
+
+/// A network in which (nearly) every layer input has the same element count, so that skip and
+/// loop connections between many index pairs are well-formed.
+/// kind 0: flat (dense) chain, 1: spatial chain, 2: mixed flat/spatial chain on r*r elements.
+pub fn chain(rng: &mut Rng, kind: usize, depth: usize, acts: &[Act], allow_pool: bool, end_dense: bool) -> NetCfg {
+    let mut layers = Vec::new();
+    let same_conv = |rng: &mut Rng, c: usize| {
+        let k = *rng.pick(&[1usize, 3]);
+        LCfg::Conv {
+            filters: c,
+            kernel: (k, k),
+            stride: (1, 1),
+            padding: ((k - 1) / 2, (k - 1) / 2),
+            dilation: (1, 1),
+            act: *rng.pick(acts),
+            dropout: None,
+        }
+    };
+    let same_deconv = |rng: &mut Rng, c: usize| {
+        let k = *rng.pick(&[1usize, 3]);
+        LCfg::Deconv {
+            filters: c,
+            kernel: (k, k),
+            stride: (1, 1),
+            padding: ((k - 1) / 2, (k - 1) / 2),
+            act: *rng.pick(acts),
+            dropout: None,
+        }
+    };
+    let input;
+    match kind {
+        0 => {
+            let n = rng.range(1, 5);
+            input = Sh::Flat(n);
+            for _ in 0..depth {
+                layers.push(LCfg::Dense { n, act: *rng.pick(acts), bias: rng.bool(), dropout: None });
+            }
+        }
+        1 => {
+            let (c, h, w) = (rng.range(1, 2), rng.range(2, 4), rng.range(2, 4));
+            input = Sh::Sp(c, h, w);
+            let mut i = 0;
+            while i < depth {
+                match rng.range(0, if allow_pool { 3 } else { 1 }) {
+                    0 => layers.push(same_conv(rng, c)),
+                    1 => layers.push(same_deconv(rng, c)),
+                    2 => layers.push(LCfg::Pool { kernel: (1, 1), stride: (1, 1) }),
+                    _ => {
+                        if i + 1 < depth {
+                            layers.push(LCfg::Deconv {
+                                filters: c,
+                                kernel: (2, 2),
+                                stride: (1, 1),
+                                padding: (0, 0),
+                                act: *rng.pick(acts),
+                                dropout: None,
+                            });
+                            layers.push(LCfg::Pool { kernel: (2, 2), stride: (1, 1) });
+                            i += 1;
+                        } else {
+                            layers.push(same_conv(rng, c));
+                        }
+                    }
+                }
+                i += 1;
+            }
+        }
+        _ => {
+            let r = rng.range(2, 3);
+            input = Sh::Flat(r * r);
+            let mut spatial = false;
+            for i in 0..depth {
+                let want_dense = if i == 0 { true } else { rng.chance(0.4) };
+                if want_dense {
+                    layers.push(LCfg::Dense { n: r * r, act: *rng.pick(acts), bias: rng.bool(), dropout: None });
+                    spatial = false;
+                } else {
+                    let _ = spatial;
+                    if rng.bool() {
+                        layers.push(same_conv(rng, 1));
+                    } else {
+                        layers.push(same_deconv(rng, 1));
+                    }
+                    spatial = true;
+                }
+            }
+        }
+    }
+    if end_dense {
+        layers.push(LCfg::Dense { n: rng.range(1, 4), act: *rng.pick(acts), bias: rng.bool(), dropout: None });
+    }
+    NetCfg::plain(input, layers)
+}
